@@ -28,9 +28,11 @@ Disj(s) == IF Len(s) = 1 THEN s[1] ELSE C(";", <<s[1], Disj(Tail(s))>>)
 a == A("a")
 Q(t) == C("q", <<t>>)
 R(t) == C("r", <<t>>)
-Heads == { T2(X, a), T2(X, X), T2(C("f", <<X>>), Cons(X, Y)), T2(MkList(<<a, A("b")>>), Y), T2(K, M), T2(C("g", <<K, X>>), MkList(<<K>>)), T2(I(1), X), T2(Y, MkList(<<X, Y, X>>)) }
+Heads == { T2(X, a), T2(X, X), T2(C("f", <<X>>), Cons(X, Y)), T2(MkList(<<a, A("b")>>), Y), T2(K, M), T2(C("g", <<K, X>>), MkList(<<K>>)), T2(I(1), X), T2(Y, MkList(<<X, Y, X>>)), T2(a, I(1)) }
 Bodies == { TrueA, Q(X), Conj2(Q(X), R(X)), Conj2(Q(X), A("!")), Conj2(A("!"), Q(X)), C(";", <<Q(X), R(X)>>), C(";", <<C("->", <<Q(X), R(Y)>>), C("=", <<Y, A("z")>>)>>),
-            C("\\+", <<Q(X)>>), C("=", <<X, K>>), C("call", <<A("q"), X>>), G, Conj2(G, R(X)), Conj2(Conj2(Q(X), A("!")), R(Y)), C("=", <<M, X>>) }
+            C("\\+", <<Q(X)>>), C("=", <<X, K>>), C("call", <<A("q"), X>>), G, Conj2(G, R(X)), Conj2(Conj2(Q(X), A("!")), R(Y)), C("=", <<M, X>>),
+            \* variables that occur in a later alternative only (each alternative is compiled as a clause of its own)
+            C(";", <<Q(a), C("=", <<M, A("z")>>)>>), C(";", <<FailA, Q(M)>>), C(";", <<Q(a), C(";", <<R(A("b")), C("=", <<M, X>>)>>)>>) }
 Pre == [i \in 1..13 |-> IF i = 9 THEN A("k") ELSE IF i = 13 THEN Q(X) ELSE U]
 
 Helpers == << [key |-> <<"q", 1>>, dyn |-> FALSE, cls |-> << [id |-> 1, head |-> Q(a), body |-> TrueA, nv |-> 0], [id |-> 2, head |-> Q(A("b")), body |-> TrueA, nv |-> 0] >>],
